@@ -4,7 +4,7 @@
     on the real gecs.  No proofs in this file. *)
 From Coq Require Import NArith Bool.
 From stdpp Require Import base list numbers option.
-From Gecs Require Import Prim ExtrBits ExtrVersion ExtrStorage ExtrQuery Storage Query World.
+From Gecs Require Import Prim ExtrBits ExtrVersion ExtrStorage ExtrQuery Storage Query World Borrow.
 Local Open Scope nat_scope.
 
 Inductive href := RIssued (k : nat) | RDirect (k : nat) | RRaw (key ver : N).
@@ -35,7 +35,8 @@ Inductive op :=
   | OClearEv (l : lvl)
   | OReg
   | OFault (f : fault) (n : N)
-  | OConv (k : kind) (r : href).
+  | OConv (k : kind) (r : href)
+  | OBorrow (prog : list bcmd).
 
 Record rstate := RS {
   worlds : list (option world);
@@ -474,6 +475,7 @@ Definition step (cfg : config) (d : wdecl) (qs : list (list qparam)) (st : rstat
           | UB => None
           end
       end
+  | OBorrow prog => ret st (borrow_obs d qs w (issued st) prog)
   | OLen a =>
       match w !! a with
       | Some s => ret st [N.of_nat (len s); N.of_nat (cap s); (if len s =? 0 then 1%N else 0%N); version s;
